@@ -173,7 +173,7 @@ def check(prop, tier, seed):
         if j.name not in small_cache:
             cpath, info = groups[j.group]
             try:
-                small_cache[j.name] = vfcore.run_job(j, cpath, info, tier, defines=['-DVF_SMALL'], subdir='.small', witness_mode=True)
+                small_cache[j.name] = vfcore.run_job(j, cpath, info, tier, defines=['-DVF_SMALL'], subdir='.small', witness_mode=True, timeout=90)
             except Exception:
                 small_cache[j.name] = None
         r2 = small_cache[j.name]
@@ -223,6 +223,7 @@ def check(prop, tier, seed):
             'trusted_base': sorted(trusted | set(['clang 14 front end (template instantiation, constant evaluation)', 'cxx2c lowering (tools/cxx2c*.py)', 'CBMC 6.11 dfcc instrumentation and SAT back end'])),
             'functions_under_contract': fn_table,
             'jobs': len(jobs), 'jobs_undecided': len(undecided),
+            'solver_runs_reused_from_content_cache': sum(1 for j, r in results if r.get('cached')),
             'samples': samples or [{'note': 'no postcondition obligation attributed'}],
             'bounded_parts': bounded_parts, 'bounded_obligations_not_counted': n_bounded,
             'known_findings_hit': [k[0].get('id') for k in known],
